@@ -10,7 +10,7 @@ def nontrivial(prog, f):
 
 SPEC = streamcheck.StreamSpec(
     PROP, probes=['C02'],
-    cfg=progs.GenConfig(n_cmds=(4, 36), p_list=0.12, p_sub=0.14),
+    cfg=progs.GenConfig(static_durations=True, n_cmds=(4, 36), p_list=0.12, p_sub=0.14),
     n_quick=1200, n_thorough=40000,
     nontrivial=nontrivial,
     rule='random build programs (all classes, explicit/implicit/foreign relations, nesting, apply/flatten/copy); every '
